@@ -1,6 +1,10 @@
 package hc
 
-import "errors"
+import (
+	"errors"
+	"os"
+	"strings"
+)
 
 // Batcher collects (request line, implementation answer) pairs and compares them with the model
 // driver in chunks, so that long (thorough) runs do not hold every line in memory.
@@ -36,6 +40,12 @@ func (b *Batcher) Flush() {
 	if len(b.lines) == 0 || b.noModel || b.err != nil {
 		b.lines, b.impls, b.size = b.lines[:0], b.impls[:0], 0
 		return
+	}
+	if p := os.Getenv("VERIF_DUMP_LINES"); p != "" { // debugging aid: append the request lines to a file
+		if f, err := os.OpenFile(p, os.O_APPEND|os.O_CREATE|os.O_WRONLY, 0o644); err == nil {
+			_, _ = f.WriteString(strings.Join(b.lines, "\n") + "\n")
+			_ = f.Close()
+		}
 	}
 	outs, err := b.c.Drv.Batch(b.lines)
 	switch {
